@@ -470,15 +470,12 @@ func checkPDF(data []byte, m *docModel, r *fw.R) (*findings, [20]byte) {
 					class := "pen-advance"
 					fontW := sh.W
 					adj := sh.AdjAfter
-					// name the cause where the numbers show it
-					want := wantX
-					if sh.Mode == 1 {
-						want = wantY
-					}
-					wantAdj := -(want - fontW)
 					switch {
-					case errAdv <= 1.5+1e-6 && wantAdj > 0 && adj == math.Ceil(wantAdj-0.5) && adj != math.Floor(wantAdj+0.5):
-						class = "pen-advance:tj-rounding-of-negative-adjustment"
+					case errAdv < 2 && adj > 0:
+						// A correctly rounded W entry and a correctly rounded TJ number are each at
+						// most 0.5 off. -int(x+0.5) truncates toward zero: for a negative x (a number
+						// that moves the pen back) it is up to 1.5 off, up to 2 together with W.
+						class = "pen-advance:negative-adjustment-truncated"
 					case sh.Mode == 1:
 						class = "pen-advance:vertical"
 					}
@@ -570,4 +567,3 @@ func clipS(s string, n int) string {
 	}
 	return fmt.Sprintf("%q", s)
 }
-
